@@ -1,4 +1,5 @@
 import DDP.Spec.Eval
+import DDP.Proofs.ConstParam
 
 /-!
 # C08 — values are copied; only Referenz parameters alias
@@ -154,3 +155,45 @@ example : (run { structs := [],
           = "1\n9\n2\n" := by decide +kernel
 
 end DDP.Spec
+
+/-! ## The `-O 2` protocol: a value parameter flagged constant is handed over without a copy
+
+`DDP.ConstParam` models the annotator that computes the flags (tied to the real one by `vlib/constcorr.py`: flags of generated
+modules, function by function). Copy semantics survives the elision exactly if a flagged parameter is never changed by the
+callee; that is `sound`. -/
+
+namespace DDP.ConstParam
+
+/-- **No flagged parameter is ever changed**: whatever the module, if the pass leaves parameter `q` of `f` constant, running `f`
+does not change `q`'s storage — not by assignment to a part of it, not through a Referenz parameter of any callee (the function
+itself called recursively and functions looked at later included), not through a further hand-over without a copy. -/
+theorem constant_parameters_are_not_changed (p : Prog) (f q : Nat) (h : (analyse p)[f]?.bind (·[q]?) = some true) :
+    ¬ Mut p (analyse p) f q := fun hm => sound p f q hm h
+
+/-- the function of seed observation C08f: `h r v n` with `r` a Referenz parameter changed *after* the recursive call
+`h v v 1` in the text -/
+def rekursion : Prog :=
+  [{ nparams := 3, isRef := [true, false, false], extern := false,
+     body := [.call 0 [.root 1, .root 1, .none], .assign (.root 0)] }]
+
+/-- **The rule before repair 570a0c8 was not sound**, and this is the witness: reading the function's own flags at the recursive
+call (`r` still "constant" there) leaves `v` flagged although `v` is changed through `r` -/
+theorem old_rule_unsound : (analyseOld rekursion)[0]?.bind (·[1]?) = some true ∧ Mut rekursion (analyseOld rekursion) 0 1 := by
+  refine ⟨by decide, ?_⟩
+  exact Mut.viaRef (fn := rekursion[0]) (gn := rekursion[0]) (g := 0) (j := 0) (a := .root 1)
+    (args := [.root 1, .root 1, .none]) rfl rfl (by decide) rfl (Or.inl rfl) rfl rfl
+    (Mut.assign (fn := rekursion[0]) rfl rfl (by decide))
+
+/-- the repaired rule clears the flag on the same function (and `sound` says it does so on every function) -/
+example : analyse rekursion = [[false, false, true]] := by decide
+
+/-- non-vacuity: a module where flags survive — `liest` only reads its value parameter, `ruft` hands its own value parameter on
+to it, `schreibt` changes its parameter, `ruft2` hands its parameter to `schreibt` -/
+example : analyse [{ nparams := 1, isRef := [false], extern := false, body := [] },
+                   { nparams := 1, isRef := [false], extern := false, body := [.call 0 [.root 0]] },
+                   { nparams := 1, isRef := [false], extern := false, body := [.assign (.root 0)] },
+                   { nparams := 2, isRef := [false, true], extern := false, body := [.call 2 [.root 0], .call 9 [.root 1]] },
+                   { nparams := 1, isRef := [true], extern := true, body := [] }]
+    = [[true], [true], [false], [false, false], [false]] := by decide
+
+end DDP.ConstParam
